@@ -20,10 +20,10 @@ RULE = ('seeded small worlds (1-4 segments, <=3 channels, contiguous / interleav
         'segments, last lead-in explicit or carrying the 0xFFFFFFFFFFFFFFFF marker); the producer crashes at EVERY '
         'byte offset 4..len of each world (exhaustive per world for files up to 3000 bytes; longer files - wide DAQmx rows, long channels - at every '
         'lead-in / metadata offset, every chunk boundary +-1 and a seeded sample of >= 500 other raw-data offsets); each truncated file is read eagerly and '
-        'lazily (+ seeded lazy windows; every 16th cut also through a real path, every 7th through BytesIO / a buffered / an unbuffered real file) and compared with the prefix '
+        'lazily (+ seeded lazy windows; every 16th cut also through a real path, every 7th through BytesIO / a buffered / an unbuffered real file, every 7th by path with the complete .tdms_index beside it) and compared with the prefix '
         'oracle. evaluations = worlds, sub_evaluations = crash points. distinct = segment shape sequence; '
         'non-trivial = some cut fell strictly inside raw data that holds values')
-EXPECTED_PROBES = ['cut-via:rawfile', 'cut:lead-in', 'cut:metadata', 'cut:chunk-boundary', 'cut:mid-row-interleaved', 'cut:mid-value',
+EXPECTED_PROBES = ['cut-with-index-beside', 'cut-via:rawfile', 'cut:lead-in', 'cut:metadata', 'cut:chunk-boundary', 'cut:mid-row-interleaved', 'cut:mid-value',
                    'cut:string-offsets', 'cut:string-bytes', 'marker:contiguous', 'marker:interleaved', 'daqmx-world', 'writer-made-file']
 ASSUMPTIONS = ['crash model = prefix truncation at a byte offset (what the statement names); holes and reordered '
                'writes are not modelled']
@@ -131,12 +131,18 @@ def expected_incomplete(w, c):
     return w.cut_inside_raw(c)
 
 
-def check_cut(w, c, raw_ts, st, res, win_rng, real=False, backend=None):
+def check_cut(w, c, raw_ts, st, res, win_rng, real=False, backend=None, index_beside=False):
     out = []
     name = 'w.tdms'
     if backend is None:
         backend = 'realpath' if real else 'simstream'
     st.put(name, w.data[:c], real=backend in ('realpath', 'realfile', 'rawfile'))
+    if index_beside:
+        # the producer keeps the small index file ahead of the data file: after the crash the complete index sits beside
+        # the cut data file, and a read by path finds it
+        st.put(name + '_index', w.index, real=backend == 'realpath')
+    else:
+        st.remove(name + '_index')
     try:
         eager = lib.TdmsFile.read(st.source(backend, name), raw_timestamps=raw_ts)
     except Exception as exc:
@@ -361,6 +367,10 @@ def execute(case):
             if (case['cuts'] is None or case.get('sampled')) and c % 16 == 5:
                 vs += check_cut(w, c, raw_ts, st, res, win_rng, real=True)
                 res.probe('realfs-cut')
+            elif (c * 2654435761 + case['win_seed']) % 7 == 3 and getattr(w, 'index', None):
+                vs += check_cut(w, c, raw_ts, st, res, win_rng, backend='simpath' if c % 2 else 'realpath', index_beside=True)
+                st.remove('w.tdms_index')
+                res.probe('cut-with-index-beside')
             elif (c * 2654435761 + case['win_seed']) % 7 == 0:
                 # the same cut file handed over as another kind of object: BytesIO, a buffered and an unbuffered real file
                 bk = ('bytesio', 'realfile', 'rawfile')[(c + case['win_seed']) % 3]
